@@ -226,6 +226,8 @@ def motor_host_trace(history: list[dict], typing: str = "float") -> list[dict]:
             try:
                 if act in ("stop", "coast", "invert"):
                     getattr(dev, act)()
+                elif act == "backward" and not a:
+                    dev.backward()
                 elif act in ("set_speed", "backward"):
                     getattr(dev, act)(spd(a[0]))
                 elif act == "ramp":
